@@ -1,7 +1,7 @@
 """Twisted Deferreds as abstract values (shared by C14, C15, C20).
 
-A Deferred is ("dfr", n); its state lives in the abstract State: "dfr.<n>" is ("pending",), ("ok", value) or
-("fail", failure) and "dfr.<n>.cbs" the queue of callback pairs not yet run.  The model is Twisted's own
+A Deferred is ("dfr", n); its state lives in the abstract State: "dfr.<n>" is ("pending",), ("ok", value),
+("fail", failure) or ("paused", inner) -- fired, but its chain waits for a nested Deferred: .called is true, callbacks queue up -- and "dfr.<n>.cbs" the queue of callback pairs not yet run.  The model is Twisted's own
 definition of a callback chain: addCallback / addErrback / addBoth / addCallbacks append a pair; a Deferred that
 has a result runs its queue at once; a callback's return value is the next result, an exception it raises (any
 exception -- Twisted catches everything) or a Failure it returns is the next failure, and a Deferred it returns
@@ -16,10 +16,16 @@ resolved by the interpreter), bound methods of wrapped objects (("bound", id, na
 import ast
 
 from .. import effects
-from ..absint import NONE, TOP, Undecided, exc, val
+from ..absint import FALSE, NONE, TOP, TRUE, Undecided, exc, val
 from ..astutil import FUNC_TYPES, attr_chain, dotted
 
 DFR_METHODS = {"addCallback", "addErrback", "addBoth", "addCallbacks", "callback", "errback"}
+USER_VALUE, USER_EXC = ("sym", "user-value"), ("exc", "UserError")
+USER_KINDS = ("value", "raise", "fired-ok", "fired-fail", "pending")
+
+
+def userfn(kind):
+    return ("userfn", kind)
 
 
 def is_dfr(v):
@@ -31,6 +37,8 @@ def is_failure(v):
 
 
 class DeferredDomain(effects.EffectDomain):
+    list_outparams = True
+
     def __init__(self, classes, dfr_results=None, **kw):
         super().__init__(classes, **kw)
         self.dfr_results = dict(dfr_results or {})   # dotted callee -> [("ok", v) | ("fail", f), ...]: returns an already-fired Deferred
@@ -46,12 +54,12 @@ class DeferredDomain(effects.EffectDomain):
         return st.get(f"dfr.{d[1]}", ("pending",))
 
     def truth(self, value):
-        if is_dfr(value) or is_failure(value) or (isinstance(value, tuple) and value[:1] in (("method",), ("listappend",))):
+        if is_dfr(value) or is_failure(value) or (isinstance(value, tuple) and value[:1] in (("method",), ("listappend",), ("partial",), ("func",), ("userfn",))):
             return "T"
         return super().truth(value)
 
     def is_none(self, value):
-        if is_dfr(value) or is_failure(value) or (isinstance(value, tuple) and value[:1] in (("method",), ("listappend",), ("func",))):
+        if is_dfr(value) or is_failure(value) or (isinstance(value, tuple) and value[:1] in (("method",), ("listappend",), ("func",), ("partial",), ("userfn",))):
             return "F"
         return super().is_none(value)
 
@@ -79,6 +87,16 @@ class DeferredDomain(effects.EffectDomain):
                 cur = st.get(key, None)
                 if isinstance(cur, tuple) and cur[:1] == ("tuple",):
                     return ("listappend", key)
+        if len(chain) == 2 and all(isinstance(c, str) for c in chain) and chain[1] in ("called", "paused", "result"):
+            v = st.get(fr.local(chain[0]), None)
+            if is_dfr(v):
+                res = self.result_of(st, v)
+                if chain[1] == "called":
+                    return FALSE if res[0] == "pending" else TRUE
+                if chain[1] == "paused":
+                    return ("const", 1 if res[0] == "paused" else 0)
+                if res[0] != "pending":
+                    return res[1]   # (a paused Deferred's .result is the nested Deferred it waits for)
         if chain and chain[0] == "<yield>":
             return self._yield(chain[2], st, fr)
         if len(chain) == 1 and isinstance(chain[0], str):
@@ -114,6 +132,48 @@ class DeferredDomain(effects.EffectDomain):
 
     def apply(self, interp, fn, pos, kw, st, fr):
         """Call the abstract callable ``fn`` with abstract arguments -> list of Result."""
+        if isinstance(fn, tuple) and fn[:1] == ("userfn",):
+            # a user function of a given kind: returns / raises / returns a Deferred that has fired, failed or is pending
+            log = st.get("ev.calls", ())
+            s = st.set("ev.calls", log + (("user-function", tuple(pos), tuple(kw), fn[1]),))
+            kind = fn[1]
+            if kind == "value":
+                return [val(USER_VALUE, s)]
+            if kind == "raise":
+                return [exc(USER_EXC, s)]
+            oc = {"fired-ok": ("ok", USER_VALUE), "fired-fail": ("fail", ("failure", USER_EXC)), "pending": ("pending",)}[kind]
+            dv, s2 = self.new_dfr(s, oc)
+            return [val(dv, s2.set("ev.user_dfr", dv))]
+        if isinstance(fn, tuple) and fn[:1] == ("partial",):
+            # functools.partial(f, *a, **k): arguments given as plain names of lists / dicts are aliases, not copies
+            _, inner, p_pos, p_kw = fn
+            refs = {}
+            pos2 = []
+            for v in p_pos:
+                pos2.append(st.get(v[1], TOP) if isinstance(v, tuple) and v[:1] == ("ref",) else v)
+            kw2 = []
+            for k, v in p_kw:
+                if isinstance(v, tuple) and v[:1] == ("ref",):
+                    refs[k] = v[1]
+                    kw2.append((k, st.get(v[1], TOP)))
+                else:
+                    kw2.append((k, v))
+            pos_refs = {i: v[1] for i, v in enumerate(p_pos) if isinstance(v, tuple) and v[:1] == ("ref",)}
+            out = []
+            for r in self.apply(interp, inner, pos2 + list(pos), kw2 + list(kw), st, fr):
+                s2 = r.state
+                for k, key in refs.items():
+                    if s2.has("outparam." + k):
+                        s2 = s2.set(key, s2.get("outparam." + k))
+                if pos_refs and isinstance(inner, tuple) and inner[:1] == ("func",):
+                    names = [p.arg for p in inner[1].args.posonlyargs + inner[1].args.args]
+                    for i, key in pos_refs.items():
+                        if i < len(names) and s2.has("outparam." + names[i]):
+                            s2 = s2.set(key, s2.get("outparam." + names[i]))
+                if any(k_.startswith("outparam.") for k_, _ in s2.items):
+                    s2 = s2.drop_prefix("outparam.")
+                out.append(type(r)(r.kind, r.value, s2))
+            return out
         if isinstance(fn, tuple) and fn[:1] == ("func",):
             node = fn[1]
             a = node.args
@@ -123,7 +183,7 @@ class DeferredDomain(effects.EffectDomain):
                 argvals[a.vararg.arg] = ("tuple",) + tuple(pos[len(params):])
             for k, v in kw:
                 argvals[k] = v
-            return interp.inline(node, argvals, st, fr, receiver=fr.receiver, is_method=False)
+            return interp.inline(node, argvals, st, fr, receiver=fr.receiver, is_method=False, closure_env=fn[2] if len(fn) == 3 else ())
         if isinstance(fn, tuple) and fn[:1] == ("bound",):
             return self.call_bound_values(fn, list(pos), list(kw), st)
         if isinstance(fn, tuple) and fn[:1] == ("wobj",):
@@ -147,7 +207,8 @@ class DeferredDomain(effects.EffectDomain):
             owner, f = self.classes.resolve_method(fr.receiver, fn[1]) if fr.receiver is not None else (None, None)
             if isinstance(f, FUNC_TYPES) and owner is not None and not owner.external:
                 a = f.args
-                params = [p.arg for p in a.posonlyargs + a.args][1:]
+                static = any((dotted(x) or "") == "staticmethod" for x in f.decorator_list)
+                params = [p.arg for p in a.posonlyargs + a.args][0 if static else 1:]
                 argvals = {p: v for p, v in zip(params, pos)}
                 if a.vararg is not None:
                     argvals[a.vararg.arg] = ("tuple",) + tuple(pos[len(params):])
@@ -159,7 +220,7 @@ class DeferredDomain(effects.EffectDomain):
                         extra.append((k, v))
                 if a.kwarg is not None:
                     argvals[a.kwarg.arg] = ("kwdict", tuple(extra))
-                return self._maybe_generator(f, interp.inline(f, argvals, st, fr, receiver=fr.receiver))
+                return self._maybe_generator(f, interp.inline(f, argvals, st, fr, receiver=fr.receiver, is_method=not static))
         return [val(TOP, st)]
 
     def call_bound_values(self, bound, pos, kw, st):
@@ -228,7 +289,7 @@ class DeferredDomain(effects.EffectDomain):
             return ("fail", v), r.state
         if is_dfr(v):
             inner = self.result_of(r.state, v)
-            if inner[0] == "pending":
+            if inner[0] in ("pending", "paused"):
                 raise Undecided("a callback returned a Deferred that has not fired: outside the synchronous model")
             # the inner Deferred's result moves to the outer one
             return inner, r.state.set(f"dfr.{v[1]}", ("ok", NONE))
@@ -246,7 +307,7 @@ class DeferredDomain(effects.EffectDomain):
             s = work.pop()
             res = self.result_of(s, d)
             cbs = s.get(f"dfr.{d[1]}.cbs", ())
-            if res[0] == "pending" or not cbs:
+            if res[0] in ("pending", "paused") or not cbs:
                 done.append(s)
                 continue
             (cb, cb_pos, cb_kw), (eb, eb_pos, eb_kw) = cbs[0]
@@ -324,6 +385,45 @@ class DeferredDomain(effects.EffectDomain):
                 return out
             if any(isinstance(n_, ast.Call) for n_ in ast.walk(f_.value)) and any(r.kind == "val" and is_dfr(r.value) for r in recv):
                 raise Undecided("a receiver expression is a Deferred on some paths only")
+        if d.split(".")[-1] == "Failure" and len(call.args) <= 1 and not call.keywords:
+            out = []
+            for r in interp.eval_list(list(call.args), st, fr):
+                if r.kind == "exc":
+                    out.append(r)
+                else:
+                    e_ = r.value[0] if r.value else r.state.get(fr.local("<handling>"), ("exc", "current"))
+                    out.append(val(("failure", e_), r.state))
+            return out
+        if isinstance(f_, ast.Attribute) and f_.attr == "raiseException" and not call.args:
+            out = []
+            handled = True
+            for r in interp.eval(f_.value, st, fr):
+                if r.kind == "exc":
+                    out.append(r)
+                elif is_failure(r.value):
+                    out.append(exc(r.value[1], r.state))
+                else:
+                    handled = False
+            if handled:
+                return out
+        if d in ("partial", "functools.partial") and call.args:
+            out = []
+            exprs = list(call.args) + [k.value for k in call.keywords]
+            if any(isinstance(a, ast.Starred) for a in call.args) or any(k.arg is None for k in call.keywords):
+                return super().call(interp, call, st, fr)
+            for r in interp.eval_list(exprs, st, fr):
+                if r.kind == "exc":
+                    out.append(r)
+                    continue
+                def ref_or_value(expr, v):
+                    key = interp._key_of(expr, fr) if isinstance(expr, (ast.Name, ast.Attribute)) else None
+                    if key is not None and r.state.has(key) and isinstance(v, tuple) and v[:1] in (("tuple",), ("kwdict",)):
+                        return ("ref", key)
+                    return v
+                pos = tuple(ref_or_value(a, v) for a, v in zip(call.args[1:], r.value[1: len(call.args)]))
+                kw = tuple((k.arg, ref_or_value(k.value, v)) for k, v in zip(call.keywords, r.value[len(call.args):]))
+                out.append(val(("partial", r.value[0], pos, kw), r.state))
+            return out
         if d.split(".")[-1] == "Deferred" and d in ("defer.Deferred", "Deferred") and not call.args:
             dv, s2 = self.new_dfr(st)
             return [val(dv, s2)]
@@ -378,13 +478,18 @@ class DeferredDomain(effects.EffectDomain):
         # a local holding a first-class callable of this model
         if isinstance(f_, ast.Name) and st.has(fr.local(f_.id)):
             v = st.get(fr.local(f_.id))
-            if isinstance(v, tuple) and v[:1] in (("method",), ("listappend",)):
+            if isinstance(v, tuple) and v[:1] in (("method",), ("listappend",), ("wobj",), ("partial",), ("userfn",)) and not any(isinstance(a, ast.Starred) for a in call.args) \
+                    and all(k.arg is not None for k in call.keywords):
                 out = []
-                for r in interp.eval_list(list(call.args), st, fr):
-                    out.extend([r] if r.kind == "exc" else self.apply(interp, v, list(r.value), [], r.state, fr))
+                for r in interp.eval_list(list(call.args) + [k.value for k in call.keywords], st, fr):
+                    if r.kind == "exc":
+                        out.append(r)
+                        continue
+                    kw = [(k.arg, x) for k, x in zip(call.keywords, r.value[len(call.args):])]
+                    out.extend(self.apply(interp, v, list(r.value[: len(call.args)]), kw, r.state, fr))
                 return out
         # an inlineCallbacks method of self returns a Deferred
         hit = interp.resolve_callee(call, st, fr, self.classes) if self.inline and not (self.track(d) or d in self.results or d in self.raises or d in self.ctors) else None
-        if hit is not None and any((dotted(x) or "").split(".")[-1] == "inlineCallbacks" for x in hit[0].decorator_list):
+        if hit is not None and any((dotted(x) or "").split(".")[-1] == "inlineCallbacks" for x in getattr(hit[0], "decorator_list", [])):
             return self._maybe_generator(hit[0], interp.call_function(hit[0], call, st, fr, receiver=hit[1], bind_self=hit[2]))
         return super().call(interp, call, st, fr)
